@@ -189,6 +189,10 @@ class BaseEphysReader(object):
     sample_onset = 0
     sample_offset = None
 
+    # Let NumPy scalars and arrays on the left of an operator defer to the reflected methods
+    # below, instead of unpacking themselves into Python numbers first (which loses their dtype).
+    __array_ufunc__ = None
+
     def __init__(self):
         self._ops = []
 
